@@ -80,6 +80,8 @@ def const_eval(node: ast.AST, env: Optional[dict] = None):
         if isinstance(f, ast.Name):
             if f.id == "range" and all(isinstance(a, int) for a in args) and len(range(*args)) <= 4096:
                 return list(range(*args))
+            if f.id == "reversed" and len(args) == 1 and isinstance(args[0], (list, tuple, str)):
+                return list(reversed(args[0]))
             if f.id == "int" and args:
                 try:
                     return int(*args)
@@ -431,3 +433,17 @@ def import_time_registrars(ix: Index, mod, name: str) -> set:
                     if not used_elsewhere:
                         out.add(f"{fn.name}.<locals>.{inner.name}")
     return out
+
+
+def item_list_field(ix: Index) -> str:
+    """Name of the EFLRSet field holding the registered items: the list `register_item` appends its argument to."""
+    eset = ix.get_class("EFLRSet")
+    for f in eset.methods.values():
+        params = set(f.param_names[1:])
+        for n in walk_local(f.node):
+            if isinstance(n, ast.Call) and isinstance(n.func, ast.Attribute) and n.func.attr == "append" \
+                    and isinstance(n.func.value, ast.Attribute) and isinstance(n.func.value.value, ast.Name) \
+                    and n.func.value.value.id == "self" and len(n.args) == 1 and isinstance(n.args[0], ast.Name) \
+                    and n.args[0].id in params:
+                return n.func.value.attr
+    raise AnalysisError("EFLRSet: the list the items are registered in was not found")
